@@ -249,8 +249,36 @@ def judge_cputime(case):
                      f"increment ratio {d2 / max(d1, 1e-9):.2f} (linear = 2.0, quadratic = 4.0)"})
     return {"nontrivial": True, "outcome": "ok", "violations": viol, "_cpu": best}
 
+def judge_heap(case):
+    """the cost of backward depends on the graph, not on what else lives in the process: the same chain is back-propagated in a
+    lean process and with 3 million unrelated container objects alive (CPU time of the calling thread, minimum of 3).  Reported
+    only when the loaded run costs more than twice the lean one AND at least 0.1 s more (unchanged tree: < 0.01 s more)."""
+    import time
+    sg = harness.load(); harness.reset_modes(verify=False)
+    kind, n = case["shape"], case["n"]
+    def measure():
+        ts = []
+        for rep in range(3):
+            root, nops = _build(sg, kind, n)
+            g = sg.Tensor(np.ones(root.shape))
+            t0 = time.thread_time(); root.backward(g); ts.append(time.thread_time() - t0)
+            root = None
+        return min(ts)
+    lean = measure()
+    junk = [[] for _ in range(3_000_000)]
+    try:
+        loaded = measure()
+    finally:
+        del junk
+    viol = []
+    if loaded > 2.0 * max(lean, 1e-9) and loaded - lean > 0.1:
+        viol.append({"kind": f"{kind}:cost-depends-on-unrelated-heap", "detail": f"CPU seconds inside backward over {n} operations: {lean:.3f} in a lean process, "
+                     f"{loaded:.3f} with 3 million unrelated lists alive"})
+    return {"nontrivial": True, "outcome": "ok", "violations": viol, "_cpu": (lean, loaded)}
+
 def dispatch(case):
-    return judge_cost(case) if case["kind"] == "cost" else judge_cputime(case) if case["kind"] == "cputime" else judge(case)
+    k = case["kind"]
+    return judge_cost(case) if k == "cost" else judge_cputime(case) if k == "cputime" else judge_heap(case) if k == "heap" else judge(case)
 
 def all_cases(tier):
     sizes = SIZES_Q if tier == "quick" else SIZES_T
@@ -269,6 +297,8 @@ def all_cases(tier):
             out.append({"kind": "cost", "shape": shape, "n": n})
     for shape in ("chain", "chain_retain_each", "chain_built_under_retain_grads", "chain_from_many_leaves", "ladder"):
         out.append({"kind": "cputime", "shape": shape, "n": 4000 if shape != "ladder" else 2000})
+    for shape, n in (("chain", 1500), ("chain", 6000), ("tree", 3000)):
+        out.append({"kind": "heap", "shape": shape, "n": n})
     return out
 
 def replay(case):
